@@ -230,7 +230,16 @@ Definition mon_C05_inventory (sc : scenario) (c0 : cluster) (out : outcome) : bo
     || memn e (prev_of (out_final out))
     || (match find_obj (objs c0) e with Some c => c_keep c | None => false end)
     || existsb (fun it => match it with IEv (EPrune _ e' ASkip) => Nat.eqb e e' | _ => false end) (out_trace out)
-       && negb (memn e (managed (out_final out)))) prune_ids.
+       && negb (memn e (managed (out_final out)))
+       && match find_obj (objs c0) e with
+          | Some c =>
+              existsb (fun it => match it with
+                                 | IEv (EApply _ j AOk) =>
+                                     match find_obj (objs (out_final out)) j with
+                                     | Some c' => N.eqb (c_uid c') (c_uid c) | None => false end
+                                 | _ => false end) (out_trace out)
+          | None => false
+          end) prune_ids.
 
 Lemma mon_C05_split sc c0 out : mon_C05 sc c0 out = mon_C05_order sc c0 out && mon_C05_inventory sc c0 out.
 Proof. reflexivity. Qed.
